@@ -681,6 +681,7 @@ func init() {
 		scen := fs.String("scenarios", "", "write the scenarios (JSON lines) here")
 		ops := fs.Bool("ops", false, "operator-level scenarios (multi-source operators / subjects behind pass-through operators)")
 		yield := fs.Bool("yield", true, "yield mode of the library hooks")
+		chain := fs.Bool("chain", false, "only scenarios of the chain family (safe / eventually-safe observable, concurrent producers, pass-through operator | stateful operator)")
 		_ = fs.Parse(args)
 		kernel.InstallHooks()
 		if *yield {
@@ -692,6 +693,8 @@ func init() {
 		for i := range scs {
 			if *ops {
 				oscs[i] = kernel.GenOp(r)
+			} else if *chain {
+				scs[i] = kernel.GenChain(r)
 			} else {
 				scs[i] = kernel.Gen(r)
 			}
